@@ -402,6 +402,10 @@ fn literal_checks(cx: &mut Ctx, h: &Hir, o: &Opts) -> Option<String> {
         cx.bad("impl_vs_model", "", TIE_LIT, format!("extract_untagged tail: optimized {} impl {} model {}", seq_sx(&st.optimized), iun, fin));
     }
     cx.rep.branch(if st.untagged.is_finite() { "lits:final-finite" } else { "lits:final-infinite" });
+    // OptimizeCert.inf: the optimiser keeps the infinite sequence infinite
+    if !st.extracted.is_finite() && st.optimized.is_finite() {
+        cx.bad("impl_vs_model", "", TIE_LIT, format!("optimize_for_prefix_by_preference made a finite sequence {} out of the infinite one", seq_sx(&st.optimized)));
+    }
     // certificates: the external optimisation step, and model-pre covers what the implementation uses
     let c1 = cx.drv.ask(&format!("c11.covers {} {}", ipre, seq_sx(&st.optimized)));
     if c1 != "1" {
@@ -438,6 +442,8 @@ fn gen_hays(h_for_alphabet: &[&Hir], o: &Opts, rng: &mut Rng, thorough: bool) ->
         b"\r".to_vec(),
         vec![0],
         vec![0xff],
+        vec![0x80],
+        vec![0xe2, 0x82],
         "é".as_bytes().to_vec(),
         b"A".to_vec(),
         b"-".to_vec(),
@@ -453,7 +459,7 @@ fn gen_hays(h_for_alphabet: &[&Hir], o: &Opts, rng: &mut Rng, thorough: bool) ->
         None => b"\n".to_vec(),
     };
     let mut lines: Vec<Vec<u8>> = vec![vec![]];
-    let n_wit = if thorough { 10 } else { 6 };
+    let n_wit = if thorough { 7 } else { 6 };
     for h in h_for_alphabet {
         for _ in 0..n_wit {
             let mut w = vec![];
@@ -471,7 +477,7 @@ fn gen_hays(h_for_alphabet: &[&Hir], o: &Opts, rng: &mut Rng, thorough: bool) ->
             lines.push(l);
         }
     }
-    for _ in 0..(if thorough { 10 } else { 5 }) {
+    for _ in 0..(if thorough { 6 } else { 5 }) {
         let mut l = vec![];
         for _ in 0..rng.below(7) {
             l.extend_from_slice(&pickv(rng, &alpha));
@@ -480,7 +486,7 @@ fn gen_hays(h_for_alphabet: &[&Hir], o: &Opts, rng: &mut Rng, thorough: bool) ->
     }
     let mut hays: Vec<Vec<u8>> = lines.clone();
     // buffers of several lines
-    for _ in 0..(if thorough { 8 } else { 4 }) {
+    for _ in 0..(if thorough { 5 } else { 4 }) {
         let mut buf = vec![];
         let n = rng.range(2, 4);
         for i in 0..n {
@@ -678,12 +684,320 @@ fn matcher_checks(cx: &mut Ctx, b: &Built, o: &Opts, hays: &[Vec<u8>], extra_wor
             };
             // every reported match must be a span of the denotation
             let ok2 = ms.iter().all(|m| spans.contains(m));
+            // EngineSpec of theorem C11: shortest_match reports the end of a match with minimal start
+            let sh = b.matcher.shortest_match(hay).unwrap();
+            let smin = spans.iter().map(|x| x.0).min();
+            let ok3 = match sh {
+                None => spans.is_empty(),
+                Some(i) => smin.map_or(false, |s0| spans.contains(&(s0, i))),
+            };
+            if !ok3 {
+                cx.bad("impl_vs_model", "", TIE_ENGINE, format!("shortest_match {:?} on {:?} is not the end of a leftmost match; Matches spans {:?} (HIR {})", sh, show(hay), spans, sx));
+            }
             if !ok || !ok2 {
                 cx.bad("impl_vs_model", "", TIE_ENGINE, format!("engine and denotation disagree on {:?}: engine first {:?} all {:?}, Matches spans {:?} (HIR {})", show(hay), first, ms, spans, sx));
             }
         }
     }
     (any_match, any_nonmatch)
+}
+
+
+// ---------------------------------------------------------------- configuration level (config.rs / ast.rs / build_many)
+
+const TIE_CFG: &str = "config.rs ConfiguredHIR::new + ast.rs smart case + matcher.rs build_many vs Model.RegexConfig.Config.build (theorem C11)";
+
+fn cfg_sx(o: &Opts) -> String {
+    let lt = match o.line_term() {
+        None => "none".to_string(),
+        Some(lt) if lt.is_crlf() => "crlf".to_string(),
+        Some(lt) => format!("b{}", lt.as_byte()),
+    };
+    format!(
+        "(cfg {} {} {} {} {} {} {} {} {} {} {})",
+        o.ci as u8,
+        o.cs as u8,
+        o.ml as u8,
+        o.dot as u8,
+        o.unicode as u8,
+        o.crlf as u8,
+        o.word as u8,
+        o.whole as u8,
+        o.fixed as u8,
+        lt,
+        o.ban.map_or("-".to_string(), |b| b.to_string())
+    )
+}
+
+fn ast_sx(a: &regex_syntax::ast::Ast, up: &mut Vec<u32>, out: &mut String) {
+    use regex_syntax::ast::Ast;
+    match a {
+        Ast::Empty(_) | Ast::Flags(_) | Ast::Dot(_) | Ast::Assertion(_) | Ast::ClassUnicode(_) | Ast::ClassPerl(_) => out.push_str("(o)"),
+        Ast::Literal(l) => {
+            if l.c.is_uppercase() {
+                up.push(l.c as u32);
+            }
+            out.push_str(&format!("(l {})", l.c as u32));
+        }
+        Ast::ClassBracketed(b) => {
+            out.push_str("(b ");
+            set_sx(&b.kind, up, out);
+            out.push(')');
+        }
+        Ast::Repetition(r) => {
+            out.push_str("(r ");
+            ast_sx(&r.ast, up, out);
+            out.push(')');
+        }
+        Ast::Group(g) => {
+            out.push_str("(g ");
+            ast_sx(&g.ast, up, out);
+            out.push(')');
+        }
+        Ast::Alternation(x) => {
+            out.push_str("(a");
+            for y in &x.asts {
+                out.push(' ');
+                ast_sx(y, up, out);
+            }
+            out.push(')');
+        }
+        Ast::Concat(x) => {
+            out.push_str("(c");
+            for y in &x.asts {
+                out.push(' ');
+                ast_sx(y, up, out);
+            }
+            out.push(')');
+        }
+    }
+}
+
+fn set_sx(s: &regex_syntax::ast::ClassSet, up: &mut Vec<u32>, out: &mut String) {
+    use regex_syntax::ast::ClassSet;
+    match s {
+        ClassSet::Item(i) => item_sx(i, up, out),
+        ClassSet::BinaryOp(op) => {
+            out.push_str("(op ");
+            set_sx(&op.lhs, up, out);
+            out.push(' ');
+            set_sx(&op.rhs, up, out);
+            out.push(')');
+        }
+    }
+}
+
+fn item_sx(i: &regex_syntax::ast::ClassSetItem, up: &mut Vec<u32>, out: &mut String) {
+    use regex_syntax::ast::ClassSetItem as I;
+    let lit = |c: char, up: &mut Vec<u32>| {
+        if c.is_uppercase() {
+            up.push(c as u32);
+        }
+    };
+    match i {
+        I::Empty(_) | I::Ascii(_) | I::Unicode(_) | I::Perl(_) => out.push_str("(o)"),
+        I::Literal(l) => {
+            lit(l.c, up);
+            out.push_str(&format!("(l {})", l.c as u32));
+        }
+        I::Range(r) => {
+            lit(r.start.c, up);
+            lit(r.end.c, up);
+            out.push_str(&format!("(rg {} {})", r.start.c as u32, r.end.c as u32));
+        }
+        I::Bracketed(b) => {
+            out.push_str("(b ");
+            set_sx(&b.kind, up, out);
+            out.push(')');
+        }
+        I::Union(u) => {
+            out.push_str("(u");
+            for x in &u.items {
+                out.push(' ');
+                item_sx(x, up, out);
+            }
+            out.push(')');
+        }
+    }
+}
+
+/// The whole of `build_many` in the model (route, smart case, ban, strip, wrapping, line terminator,
+/// non-matching bytes, fast-path literals) against the real builder.
+fn config_checks(cx: &mut Ctx, c: &Case, built: &Option<Built>, err: &Option<String>) {
+    let o = &c.opts;
+    let cfg = cfg_sx(o);
+    let pats = format!("(pats {})", c.pats.iter().map(|p| hex(p.as_bytes())).collect::<Vec<_>>().join(" "));
+    let route = cx.drv.ask(&format!("c11.route {} {}", cfg, pats));
+    let Some((fx, pat)) = route.strip_prefix("fixed=").and_then(|r| r.split_once(" pattern=")) else {
+        cx.bad("impl_vs_model", "", TIE_CFG, format!("bad route reply {}", route));
+        return;
+    };
+    let fixed = fx == "1";
+    if let Some(b) = built {
+        if b.parts.fixed_strings != fixed {
+            cx.bad("impl_vs_model", "", TIE_CFG, format!("is_fixed_strings: impl {} model {}", b.parts.fixed_strings, fixed));
+            return;
+        }
+    }
+    let mut tr_sx = "(empty)".to_string();
+    if !fixed {
+        let text = match unhex(pat).and_then(|b| String::from_utf8(b).ok()) {
+            Some(t) => t,
+            None => {
+                cx.bad("impl_vs_model", "", TIE_CFG, format!("pattern text not UTF-8: {}", pat));
+                return;
+            }
+        };
+        let ast = match regex_syntax::ast::parse::ParserBuilder::new().nest_limit(250).build().parse(&text) {
+            Ok(a) => a,
+            Err(_) => {
+                cx.rep.branch("cfg:parse-error");
+                if err.as_deref() != Some("err regex") {
+                    cx.bad("impl_vs_model", "", TIE_CFG, format!("pattern text {:?} does not parse but build gave {:?}", text, err));
+                }
+                return;
+            }
+        };
+        let (mut up, mut asx) = (vec![], String::new());
+        ast_sx(&ast, &mut up, &mut asx);
+        up.sort();
+        up.dedup();
+        let ups: Vec<String> = up.iter().map(|u| u.to_string()).collect();
+        let case = cx.drv.ask(&format!("c11.case {} {} (upper {})", cfg, asx, ups.join(" ")));
+        let ci = case.starts_with("ci=1");
+        if o.cs && !o.ci {
+            cx.rep.branch(if ci { "cfg:smart-case-insensitive" } else { "cfg:smart-case-sensitive" });
+        }
+        let tr = regex_syntax::hir::translate::TranslatorBuilder::new()
+            .utf8(false)
+            .case_insensitive(ci)
+            .multi_line(o.ml)
+            .dot_matches_new_line(o.dot)
+            .crlf(o.crlf)
+            .unicode(o.unicode)
+            .build()
+            .translate(&text, &ast);
+        match tr {
+            Ok(h) => tr_sx = to_sx(&h),
+            Err(_) => {
+                cx.rep.branch("cfg:translate-error");
+                if err.as_deref() != Some("err regex") {
+                    cx.bad("impl_vs_model", "", TIE_CFG, format!("pattern text {:?} does not translate but build gave {:?}", text, err));
+                }
+                return;
+            }
+        }
+    }
+    let (acc, opt) = match built {
+        Some(b) => (b.parts.accelerated, seq_sx(&verif::inner_literal_stages(&b.parts.hir).optimized)),
+        None => (false, "inf".to_string()),
+    };
+    // phase 1: the model's raw tree; the real smart constructors applied to it must give the real HIR
+    let reply0 = cx.drv.ask(&format!("c11.build {} {} {} {} {} -", cfg, pats, tr_sx, acc as u8, opt));
+    let mut nrm = "-".to_string();
+    let mut hir_ok = true;
+    let mut model_hir = String::new();
+    if let (Some(b), Some(rest)) = (built, reply0.strip_prefix("ok ")) {
+        let real_hir = to_sx(&b.parts.hir);
+        if let Some((_, raw)) = rest.split_once(" raw=") {
+            model_hir = rebuild_str(raw).map(|h| to_sx(&h)).unwrap_or_default();
+        }
+        hir_ok = model_hir == real_hir;
+        if !hir_ok && o.line_term().map_or(false, |l| l.is_crlf()) && !fixed {
+            // CRLF: the real code rebuilds the tree between the two passes; redo the model stepwise
+            if let Some(tr) = rebuild_str(&tr_sx) {
+                if let Ok(st) = model_strip(cx.drv, &tr, &[b'\r', b'\n']) {
+                    let w = cx.drv.ask(&format!("c11.wrap {} {}", cfg, to_sx(&st)));
+                    if let Some((_, h)) = w.split_once(" hir=") {
+                        hir_ok = rebuild_str(h).map_or(false, |h| to_sx(&h) == real_hir);
+                        cx.rep.branch("cfg:crlf-stepwise");
+                    }
+                }
+            }
+        }
+        if !hir_ok {
+            cx.bad("impl_vs_model", "", TIE_CFG, format!("final HIR: impl {} model {}", real_hir, model_hir));
+        }
+        // hypothesis `hnorm` of theorem C11 / C01_regex_faithful: the smart constructors preserve the
+        // denotation — compare the spans of the model's raw tree and of the real (normalised) tree
+        if hir_ok && real_hir.len() < 20000 {
+            if let Some((_, raw)) = rest.split_once(" raw=") {
+                let mut rng = Rng::new(fnv(raw.as_bytes()));
+                let mut srcs: Vec<&Hir> = vec![&b.parts.hir];
+                let hays = gen_hays(&mut srcs, o, &mut rng, false);
+                let uw = has_look(&b.parts.hir, &|l| is_unicode_word_look(l));
+                let word = if uw { word_table_sx() } else { "(word)" };
+                for hay in hays.iter().filter(|h| h.len() <= 10).take(4) {
+                    let a = cx.drv.ask(&format!("c11.spans {} {} {}", raw, hex(hay), word));
+                    let b2 = cx.drv.ask(&format!("c11.spans {} {} {}", real_hir, hex(hay), word));
+                    if a != b2 {
+                        cx.bad("impl_vs_model", "", "regex-syntax smart constructors preserve the denotation (hypothesis hnorm of C11)", format!("raw tree {} and normalised tree {} differ on {:?}: {} vs {}", raw, real_hir, show(hay), a, b2));
+                    }
+                    cx.rep.branch("norm:denotation-eq-checked");
+                }
+            }
+        }
+        nrm = real_hir;
+    }
+    // phase 2: everything derived from the normalised tree
+    let reply = if nrm == "-" { reply0 } else { cx.drv.ask(&format!("c11.build {} {} {} {} {} {}", cfg, pats, tr_sx, acc as u8, opt, nrm)) };
+    match (built, reply.strip_prefix("ok ")) {
+        (Some(b), Some(rest)) => {
+            // ok lt=… nm=… lits=… raw=…
+            let parts: Option<(&str, &str, &str)> = (|| {
+                let r = rest.strip_prefix("lt=")?;
+                let (lt, r) = r.split_once(" nm=")?;
+                let (nm, r) = r.split_once(" lits=")?;
+                let (lits, _) = r.split_once(" raw=")?;
+                Some((lt, nm, lits))
+            })();
+            let Some((lt, nm, lits)) = parts else {
+                cx.bad("impl_vs_model", "", TIE_CFG, format!("bad build reply {}", reply));
+                return;
+            };
+            let real_lt = match b.matcher.line_terminator() {
+                None => "none".to_string(),
+                Some(l) if l.is_crlf() => "crlf".to_string(),
+                Some(l) => format!("b{}", l.as_byte()),
+            };
+            let real_nm: Vec<u8> = {
+                let set = b.matcher.non_matching_bytes().unwrap();
+                (0..=255u8).filter(|&x| set.contains(x)).collect()
+            };
+            let real_lits = match b.parts.inner_literals.literals() {
+                Some(l) if !l.is_empty() => seq_sx(&b.parts.inner_literals),
+                _ => "inf".to_string(),
+            };
+            let real_hir = to_sx(&b.parts.hir);
+            if lt != real_lt {
+                cx.bad("impl_vs_model", "", TIE_CFG, format!("line_terminator(): impl {} model {}", real_lt, lt));
+            }
+            if hir_ok && nm != hex(&real_nm) {
+                cx.bad("impl_vs_model", "", TIE_CFG, format!("non_matching_bytes: impl {} model {}", hex(&real_nm), nm));
+            }
+            if hir_ok && lits != real_lits {
+                cx.bad("impl_vs_model", "", TIE_CFG, format!("fast-path literals: impl {} model {} (HIR {})", real_lits, lits, real_hir));
+            }
+            cx.rep.branch("cfg:build-ok-eq");
+        }
+        (None, None) => {
+            if err.as_deref() != Some(reply.as_str()) {
+                cx.bad("impl_vs_model", "", TIE_CFG, format!("build error: impl {:?} model {}", err, reply));
+            }
+            cx.rep.branch("cfg:build-err-eq");
+        }
+        (None, Some(_)) => {
+            if err.as_deref() == Some("err regex") {
+                // parse and translation succeeded: the engine refused to compile (size limits) — outside the model
+                cx.rep.branch("cfg:engine-compile-error");
+            } else {
+                cx.bad("impl_vs_model", "", TIE_CFG, format!("impl rejects with {:?}, model accepts: {}", err, reply));
+            }
+        }
+        (Some(_), None) => {
+            cx.bad("impl_vs_model", "", TIE_CFG, format!("impl accepts, model rejects with {}", reply));
+        }
+    }
 }
 
 // ---------------------------------------------------------------- a case
@@ -723,6 +1037,23 @@ fn parse_case(line: &str) -> Option<Case> {
 }
 
 fn run_case(line: &str, drv: &mut Driver, rep: &mut Report, thorough: bool) {
+    let r = std::panic::catch_unwind(std::panic::AssertUnwindSafe(|| run_case_inner(line, drv, rep, thorough)));
+    if let Err(e) = r {
+        let msg = e.downcast_ref::<String>().cloned().or_else(|| e.downcast_ref::<&str>().map(|s| s.to_string())).unwrap_or_default();
+        if msg.contains("model driver") {
+            panic!("{}", msg);
+        }
+        rep.violation(Violation {
+            kind: "impl_vs_spec".into(),
+            class: "".into(),
+            tie: "the matcher builder must not panic".into(),
+            case: line.to_string(),
+            detail: format!("panic while building / running the matcher: {}", msg),
+        });
+    }
+}
+
+fn run_case_inner(line: &str, drv: &mut Driver, rep: &mut Report, thorough: bool) {
     let Some(c) = parse_case(line) else {
         rep.notes.push(format!("unparsable case: {}", line));
         return;
@@ -732,9 +1063,11 @@ fn run_case(line: &str, drv: &mut Driver, rep: &mut Report, thorough: bool) {
     let mut cx = Ctx { drv, rep, case: line };
     let o = &c.opts;
     let builder = o.builder();
+    let mut build_err: Option<String> = None;
     let built = match (builder.build_many(&c.pats), builder.verif_build_parts(&c.pats)) {
         (Ok(m), Ok(p)) => Some(Built { matcher: m, parts: p }),
         (Err(e), Err(_)) => {
+            build_err = Some(err_wire(&e));
             cx.rep.branch(&format!("build:{}", err_wire(&e).split(' ').take(2).collect::<Vec<_>>().join("-")));
             None
         }
@@ -770,6 +1103,7 @@ fn run_case(line: &str, drv: &mut Driver, rep: &mut Report, thorough: bool) {
             }
         }
     }
+    config_checks(&mut cx, &c, &built, &build_err);
     if let Some(b) = &built {
         let mut srcs: Vec<&Hir> = vec![&b.parts.hir];
         if let Some(h0) = &h0 {
@@ -920,7 +1254,7 @@ fn main() {
             let pats = enumerate(size, &mut memo);
             let total = pats.len();
             // quick tier: every pattern of size ≤ 2, a fixed stride of size 3
-            let stride = if args.thorough { if size == 4 { 7 } else { 1 } } else if size == 3 { 7 } else { 1 };
+            let stride = if args.thorough { if size == 4 { 9 } else { 1 } } else if size == 3 { 7 } else { 1 };
             for (i, p) in pats.iter().enumerate() {
                 if i % stride != 0 {
                     continue;
@@ -949,7 +1283,7 @@ fn main() {
         rep.exhaustive = false;
         let _ = count;
         // (c) random larger patterns, random configurations, several patterns
-        let n = args.cases.unwrap_or(if args.thorough { 30000 } else { 1200 });
+        let n = args.cases.unwrap_or(if args.thorough { 12000 } else { 1200 });
         for _ in 0..n {
             let np = if rng.chance(1, 5) { rng.range(2, 3) } else { 1 };
             let pats: Vec<String> = (0..np).map(|_| random_pattern(&mut rng, 3)).collect();
@@ -957,6 +1291,19 @@ fn main() {
             let line = case_line(&o, &pats, &[]);
             run_case(&line, &mut drv, &mut rep, args.thorough);
             rep.branch("stream:random");
+        }
+        // (c') smart case: literals / ranges / nested classes with and without upper-case members
+        for p in [
+            "foo", "Foo", "fOo", "[0-Z]x", "[!-Z]", "[a-z]X", "x[A-Z]", "[0-9a-fA-F]+", r"\pL", r"\w+", "[[:upper:]]a", "f[A]o",
+            "(?i)Foo", r"\Sx", r"[^\W]b", "ß", "ǅx", "É", "é", "[a-zÀ]", "[[a-z]&&[^aeiou]]k", "[[0-Z]--[A]]q", r"\x41b", r"\u0041",
+            "a|B", "(a)(?:b|[c-D])", "x{2}Y?", r"[\x41-\x5A]z", "[a-é]",
+        ] {
+            for (ci, cs) in [(false, true), (true, true), (false, false)] {
+                let o = Opts { ci, cs, ..Opts::default_rg() };
+                let line = case_line(&o, &[p.to_string()], &[]);
+                run_case(&line, &mut drv, &mut rep, args.thorough);
+                rep.branch("stream:smart-case");
+            }
         }
         // (d) boundary / malformed
         for p in ["", "(?:)", "a{0}", "[^\\x00-\\x{10FFFF}]", "\\n", "a\\nb", "(?s:.)", "\\x00", "(?-u:[\\x00-\\xff])", "\\r\\n", "(", "[a", "a**", "\\p{Greek}+", "\u{2028}"] {
